@@ -23,6 +23,18 @@ for d in sorted(glob.glob('/verif/seeded/*/*/')):
     title = (m.get('title') or '').replace('|', '/').replace('\n', ' ')[:170]
     needs = (m.get('needs') or '').replace('|', '/').replace('\n', ' ')[:230]
     rows.append(f'| {pid}/{name} | {title} | {needs} | {"; ".join(how) or "not run yet"} |')
+import json as _j
+_own = _oth = _nf = _ms = 0
+for _d in sorted(glob.glob('/verif/seeded/*/*/detected.json')):
+    _pid = _d.split('/')[-3]; _r = _j.load(open(_d))
+    _c = lambda r: r['rc'] == 1 and r['violation_lines'] > 0 and not r['no_failing_input_found']
+    if _pid in _r and _c(_r[_pid]): _own += 1
+    elif any(_c(x) for x in _r.values()): _oth += 1
+    elif any(x['rc'] == 1 for x in _r.values()): _nf += 1
+    else: _ms += 1
+TALLY = (f'Final state (official runs against `/repo` HEAD with the final checks): {_own + _oth + _nf + _ms} stored changes; {_own} reported by the '
+         f"property's own check with a concrete failing input, {_oth} only by another property's check, {_nf} only as no-failing-input-found, "
+         f'{_ms} missed. Four delivered changes were neutralised by later repairs and are kept aside in `/verif/seeded_superseded/`.')
 text = f"""## 8. Seeded changes: which checks catch which changes
 
 Two rounds. In each, for every property an independent sub-agent, given ONLY the text of the property and a scratch worktree of
@@ -54,6 +66,8 @@ evaluation histories and draw-type clashes across formulas; C14 histories on one
 locale, scaled evaluations, bootstrap loops left by an exception; C16 histories where catalogs are created after controllers moved;
 C17 sigma of both signs; C18 both signs of the dual variable; C19 alternatives tables with permuted row labels. The second round
 also surfaced twelve genuine defects of the unchanged tree, all repaired (section 4).
+
+{TALLY}
 
 | Change | What | Needs to manifest | Result of the registered check(s) |
 |---|---|---|---|
